@@ -58,7 +58,7 @@ class C08(ProgProp):
         n = rng.randint(1, 3 if tier == "quick" else 6)
         hist = []
         for i in range(n):
-            cfg = gen.swarm(rng, self.cfg)
+            cfg = gen.swarm(rng, self.base_cfg(tier))
             cfg["kinds"] = 3
             if cfg["p_na"] > 0:
                 cfg["p_sync"] = 0.0
